@@ -248,6 +248,16 @@ class Evaluator:
         elif k == 'or':
             for p in pat['pats']:
                 self.bind_pat(p, val, ctx)
+        elif k == 'slicepat':
+            # `[a, b, ..]` / `[x]`: the i-th prefix pattern is element i (an array literal gives the element itself)
+            v = strip(val)
+            while isinstance(v, tuple) and v and v[0] in ('ref', 'deref'):
+                v = strip(v[1])
+            for i, sp in enumerate(pat.get('prefix') or []):
+                if isinstance(v, tuple) and v[0] == 'array' and i < len(v[1]):
+                    self.bind_pat(sp, v[1][i], ctx)
+                else:
+                    self.bind_pat(sp, ('index', v, ('lit', i, 'usize', ())), ctx)
 
     # ---------------------------------------------------------------- helpers
     def opaque(self, why, e, ctx):
@@ -334,6 +344,8 @@ class Evaluator:
             return (('array', vs), cat(*ts))
         if k == 'repeat':
             v, t = self.ev(e['e'], ctx)
+            if str(e['n']) in ('1', '1_usize'):
+                return (('array', [strip(v)]), t)       # `[x; 1]` is `[x]`
             return (('buf', e['n'], strip(v), e.get('ty')), t)
         if k == 'adt':
             fs, ts = [], []
@@ -429,6 +441,21 @@ class Evaluator:
                     # `let PAT = v else { diverge }` is `match v { PAT => .., _ => diverge }`: same alt as the match
                     v2, t2 = self.ev(s['else'], ctx)
                     pd = pat_desc(s['pat'])
+                    sv1 = strip(v)
+                    if pd in ('Some', 'None') and isinstance(sv1, tuple) and sv1 and sv1[0] == 'ifval' and \
+                            isinstance(strip(sv1[2]), tuple) and isinstance(strip(sv1[3]), tuple) and \
+                            {strip(sv1[2])[0], strip(sv1[3])[0]} == {'opt', 'adt'}:
+                        # the scrutinee is `if c { Some(x) } else { None }` (a checked access): the same branch on c
+                        some_first = strip(sv1[2])[0] == 'opt'
+                        payload = strip(sv1[2])[1] if some_first else strip(sv1[3])[1]
+                        if pd == 'Some':
+                            for i_, sp_ in s['pat']['subs']:
+                                self.bind_pat(sp_, payload, ctx)
+                        if self.is_err_value(v2) and not _ends_err(t2):
+                            t2 = cat(t2, ['ERR', 'Err value'])
+                        match_true = (pd == 'Some') == some_first
+                        ts.append(['alt', ('if', sv1[1]), [('true', ['eps'] if match_true else t2), ('false', t2 if match_true else ['eps'])]])
+                        continue
                     other = {'Some': 'None', 'None': 'Some', 'Ok': 'Err', 'Err': 'Ok'}.get(pd, '_')
                     if self.is_err_value(v2) and not _ends_err(t2):
                         t2 = cat(t2, ['ERR', 'Err value'])
@@ -718,6 +745,41 @@ class Evaluator:
         if tr == 'WrapperTypeDecode' and name == 'decode_wrapped' and argv and self.is_input(argv[0]):
             u = self.uid.next()
             return (('res', ('decoded', e['ga'][0], u, 'decode_wrapped')), cat(pre, ['dec', e['ga'][0], u, 'decode_wrapped', None]))
+        if f in ('core::mem::take', 'core::mem::replace') and argv and isinstance(argv[0], tuple) and argv[0] and argv[0][0] == 'ref':
+            # `mem::take(&mut place)` / `mem::replace(&mut place, v)`: the old value, and an assignment to the place
+            place = strip(argv[0])
+            if isinstance(place, tuple) and place and place[0] in ('field', 'mutvar'):
+                if f.endswith('replace') and len(argv) == 2:
+                    newv = strip(argv[1])
+                else:
+                    ty0 = (e.get('ga') or ['?'])[0]
+                    newv = ('lit', 0, ty0, ()) if ty0 in ('usize', 'u8', 'u16', 'u32', 'u64', 'u128', 'isize', 'i8', 'i16', 'i32', 'i64', 'i128') else \
+                        (('adt', 'core::option::Option', 'None', [], None) if ty0.startswith('core::option::Option') else ('default', ty0))
+                return (place, cat(pre, ['SET', place, newv, None]))
+        if name in ('get', 'get_mut') and f.startswith('core::slice::<impl [T]>::') and len(argv) == 2:
+            # checked indexing: Some(&s[r]) exactly when r lies within the slice
+            recv, rng = strip(argv[0]), strip(argv[1])
+            ln = ('call', 'len', 'core::slice::<impl [T]>::len', [recv], (), None, e.get('loc'))
+            cond = None
+            if isinstance(rng, tuple) and rng and rng[0] == 'adt':
+                fs = dict(rng[3])
+                if rng[1].endswith('RangeTo'):
+                    cond = ('bin', 'Le', strip(fs.get(0)), ln)
+                elif rng[1].endswith('RangeFrom'):
+                    cond = ('bin', 'Le', strip(fs.get(0)), ln)
+                elif rng[1].endswith('RangeFull'):
+                    cond = ('lit', True, 'bool', ())
+                elif rng[1].endswith('ops::range::Range'):
+                    cond = ('bin', 'And', ('bin', 'Le', strip(fs.get(0)), strip(fs.get(1))), ('bin', 'Le', strip(fs.get(1)), ln))
+            if cond is not None:
+                return (('ifval', cond, ('opt', ('index', recv, rng)), ('adt', 'core::option::Option', 'None', [], None)), pre)
+        if name == 'from_ref' and f.startswith('core::slice') and len(argv) == 1:
+            x = strip(argv[0])
+            while isinstance(x, tuple) and x and x[0] == 'ref':
+                x = strip(x[1])
+            return (('ref', ('array', [x]), False), pre)        # `slice::from_ref(&x)` is `&[x]`
+        if f == 'core::mem::size_of' and not argv and e.get('ga') and e['ga'][0] in _PRIM_SIZES:
+            return (('lit', _PRIM_SIZES[e['ga'][0]], 'usize', ()), pre)
         if name in ('min', 'max') and len(argv) == 2 and (tr == 'Ord' or f in ('core::cmp::min', 'core::cmp::max')):
             return (_minmax_call(name, argv[0], argv[1]), pre)
         # ------------------------------------------------ bool::then_some / bool::then: a conditional Option
@@ -1001,6 +1063,9 @@ def _mutvars_in(x, acc):
         for y in x:
             _mutvars_in(y, acc)
     return acc
+
+
+_PRIM_SIZES = {'u8': 1, 'i8': 1, 'bool': 1, 'u16': 2, 'i16': 2, 'u32': 4, 'i32': 4, 'f32': 4, 'u64': 8, 'i64': 8, 'f64': 8, 'u128': 16, 'i128': 16}
 
 
 def _minmax_call(kind, a, b):
